@@ -195,6 +195,8 @@ func (c *Ctx) PosStr(fset *token.FileSet, p token.Pos) string {
 	f := pos.Filename
 	if r, err := filepath.Rel(c.Repo, f); err == nil && !strings.HasPrefix(r, "..") {
 		f = r
+	} else if i := strings.Index(f, "/src/verifcorpus/"); i >= 0 {
+		f = "S2:" + f[i+len("/src/verifcorpus/"):]
 	}
 	return fmt.Sprintf("%s:%d", f, pos.Line)
 }
